@@ -19,11 +19,22 @@ def c08Op := labelledRenderOp fun k =>
   if k == "ISOLATION" then some "render-changed-the-callers-variables"
   else if k == "ARGS-ONLY" then some "render-output-depends-on-the-caller"
   else if k == "FOR-AS" then some "render-for-iterations-are-not-independent-renders"
+  else if k == "STANDALONE" then some "a-rendered-partial-sees-exactly-its-arguments"
   else if k == "NAME-SCOPE" then some "the-partial-name-is-evaluated-in-the-callers-scope"
   else if k == "DYN-NAME" then some "a-tag-with-a-variable-name-uses-the-partial-named-now" else none
 /-- `c07r`: a path case labelled by the harness's reference resolution of the path -/
 def c07rOp := labelledRenderOp fun k =>
   if k == "PATHLAW" then some "a-path-denotes-what-the-statement-says-or-fails" else none
+/-- `c09x`: like `c09`, but the template uses filters the interpreter model is not run with: only the
+harness's own verdict (same result as on a fresh parser) counts -/
+def c09xOp (args : List String) : String :=
+  match args with
+  | kind :: _ =>
+    let k := (kind.splitOn ":").headD ""
+    if k == "LEAK" then "specfail " ++ kind ++ " law=result-depends-on-history"
+    else if k == "DATA-MODIFIED" then "specfail " ++ kind ++ " law=caller-data-untouched"
+    else "ok " ++ kind
+  | [] => "bad-op c09x"
 def c09Op := labelledRenderOp fun k =>
   if k == "LEAK" then some "result-depends-on-history" else if k == "DATA-MODIFIED" then some "caller-data-untouched" else none
 def c19Op := labelledRenderOp fun k =>
